@@ -110,4 +110,5 @@ def replay(case):
 
 
 def shard(ctx, tier, i, n):
-    hyp_generate(ctx, strategy(), run_case, plan(tier)['examples'])
+    hyp_generate(ctx, strategy(), run_case, plan(tier)['examples'],
+                 case_timeout=150)
